@@ -747,7 +747,8 @@ Definition children_slots (c : container) (l : layout) (p : N) : list N :=
                   (combine (l_slots l) (map (parent_of c) (seq 0 (length (l_slots l)))))).
 Definition link_u32b (lk : N * N * N) : bool :=
   let '(a, b, ch) := lk in (a <? 4294967296) && (b <? 4294967296) && (ch <? 4294967296).
-(* the links are a tree over the hierarchy of the container: every link is a 32-bit value, a
+(* the links are a tree over the hierarchy of the container: every link is a 32-bit value
+   (and NOSTREAM = 0xFFFFFFFF is no entry: the directory has fewer than 2^32 - 1 entries), a
    stream has no child, and for the root and every storage the sibling tree below its child id
    holds exactly its children, each once ([sorted]: in the MS-CFB order as well) *)
 Definition tree_okb (sorted : bool) (c : container) (l : layout) : bool :=
@@ -756,7 +757,7 @@ Definition tree_okb (sorted : bool) (c : container) (l : layout) : bool :=
   let nsl := N.of_nat (nslots c l) in
   let names := combine (l_slots l) (all_names c) in
   let nst := length (c_storages c) in
-  forallb link_u32b (l_links l) &&
+  (nsl <=? FREESECT) && forallb link_u32b (l_links l) &&
   (* a stream has no child *)
   forallb (fun s => let '(_, _, ch) := lk s in ch =? FREESECT) (skipn nst (l_slots l)) &&
   forallb (fun p =>
